@@ -221,7 +221,73 @@ def c08(tier, seed):
     return out
 
 
+# ------------------------------------------------------------------------------------------------
+# C17
+# ------------------------------------------------------------------------------------------------
+
+def c17(tier, seed):
+    out = []
+    quick_dyn = sorted(set([0, 2, 5, 6, 7, 8] + [[1, 3, 4][seed % 3]]))
+    for kind in ("s", "d"):
+        tname = "LutN" if kind == "s" else "Lut"
+        for n in range(0, 9):
+            q = True if kind == "s" else (n in quick_dyn)
+            fam = fam_name(kind, n)
+            u = T(n) + 3
+            for cfg in ("dev", "rel"):
+                sweep_idx = list(range(n, n + 71)) + [2 ** 64 - 1]
+                out.append(spec("verif_c17", "c17.rs", "c17_index", "c17_index_%s" % fam, [fam], u,
+                                tier="quick" if q else "thorough", n=n, fam=fam, cfg=cfg, kind="must_panic",
+                                covers={"CALLED": "SATISFIED", "RETURNED": "UNSAT"}, sweep=sweep_idx,
+                                what="%s n=%d [%s]: nth_var/flip/swap/swap_adjacent/cofactors/from_cofactors/top_decomposition/is_*_unate (+ in-place forms) with index in [n, n+70] U {usize::MAX}, arbitrary table: the call never returns" % (tname, n, cfg)))
+                nb = 1 << n
+                out.append(spec("verif_c17", "c17.rs", "c17_assign", "c17_assign_%s" % fam, [fam], u,
+                                tier="quick" if q else "thorough", n=n, fam=fam, cfg=cfg, kind="must_panic",
+                                covers={"CALLED": "SATISFIED", "RETURNED": "UNSAT"},
+                                sweep=list(range(nb, nb + 71)) + [2 ** 64 - 1],
+                                what="%s n=%d [%s]: value/get_bit/set_bit/unset_bit/set_value with assignment in [2^n, 2^n+70] U {usize::MAX}: the call never returns" % (tname, n, cfg)))
+                out.append(spec("verif_c17", "c17.rs", "c17_blocks", "c17_blocks_%s" % fam, [fam], u + 2,
+                                tier="quick" if q else "thorough", n=n, fam=fam, cfg=cfg, kind="must_panic",
+                                covers={"CALLED": "SATISFIED", "RETURNED": "UNSAT"},
+                                what="%s n=%d [%s]: from_blocks with a slice of any length in 0..=T+2 other than T: never returns" % (tname, n, cfg)))
+            out.append(spec("verif_c17", "c17.rs", "c17_valid", "c17_valid_%s" % fam, [fam], 8 * T(n) + 3,
+                            tier="quick" if q else "thorough", n=n, fam=fam, cfg="dev",
+                            what="%s n=%d [dev]: every index/assignment-taking method on valid symbolic arguments: no debug_assert!, overflow or bounds check can fire (so debug and release builds agree)" % (tname, n)))
+    pairs_q = [(0, 1), (1, 0), (3, 4), (6, 7), (7, 6), (7, 8)]
+    pairs_t = [(2, 3), (5, 6), (6, 5), (8, 7), (4, 8), (8, 0)]
+    for (a, b) in pairs_q + pairs_t:
+        for cfg in ("dev", "rel"):
+            out.append(spec("verif_c17", "c17.rs", "c17_mismatch", "c17_mismatch_d%d_d%d" % (a, b),
+                            ["d%d" % a, "d%d" % b], max(T(a), T(b)) + 3,
+                            tier="quick" if (a, b) in pairs_q else "thorough", n=max(a, b), fam="d%d,d%d" % (a, b),
+                            cfg=cfg, kind="must_panic", covers={"CALLED": "SATISFIED", "RETURNED": "UNSAT"},
+                            what="Lut of %d vs %d variables [%s]: and/or/xor (named, in-place, 12 operator-trait forms, 6 compound assignments), from_cofactors, bdd_complexity: never returns" % (a, b, cfg)))
+    return out
+
+
+def c17_extra(scratch, tier, seed, log):
+    """The valid-argument half relies on: the two profiles differ only by checks.  Refuse that
+    argument if the crate contains code conditional on debug_assertions."""
+    import glob
+    import os as _os
+    import mirror as _m
+    hits = []
+    for path in glob.glob(_os.path.join(_m.repo_src(), "**", "*.rs"), recursive=True):
+        with open(path) as f:
+            for k, line in enumerate(f, 1):
+                if "debug_assertions" in line or "overflow_checks" in line:
+                    hits.append("%s:%d" % (path, k))
+    rec = {"harness": "source-scan: no cfg(debug_assertions)/cfg(overflow_checks)-conditional code in /repo/src",
+           "status": "SUCCESS" if not hits else "FAILED", "engine": "scan", "checks": 1,
+           "what": "precondition of the argument 'debug and release differ only by debug_assert!/overflow checks'",
+           "verdict": "discharged" if not hits else "inconclusive",
+           "detail": "" if not hits else "profile-conditional code found at " + ", ".join(hits[:5]),
+           "covers": {"reached": "SATISFIED"}}
+    return [rec]
+
+
 PROPS = {
+    "C17": c17,
     "C08": c08,
     "C11": c11,
     "C01": c01,
@@ -229,7 +295,7 @@ PROPS = {
 }
 
 # property -> function(scratch, tier, seed, log) -> list of extra (non-Kani) obligation records
-EXTRA = {}
+EXTRA = {"C17": c17_extra}
 
 
 def harnesses(prop, tier, seed=0):
